@@ -479,6 +479,15 @@ func c19Run(c c19Case, st *fw.Stats) []fw.Viol {
 						}
 					}
 				} else {
+					// nil values: whatever is sent, the helper does not panic
+					for _, v := range []any{nil, (*c19XML)(nil), []string(nil), error(nil)} {
+						v := v
+						_, _, pv := c19Serve("", func(ctx *rux.Context) { ctx.XML(status, v) })
+						st.Evals++
+						if pv != nil {
+							add("helper:panic", fmt.Sprintf("XML(%d, %#v) panicked: %v", status, v, pv))
+						}
+					}
 					for _, v := range []any{make(chan int), func() {}, map[string]int{"a": 1}} {
 						v := v
 						_, errs, pv := c19Serve("", func(ctx *rux.Context) { ctx.XML(status, v) })
@@ -618,12 +627,16 @@ func c19Run(c c19Case, st *fw.Stats) []fw.Viol {
 				accept string
 				val    any
 			}{{"application/xml, application/json", map[string]int{"a": 1}}, {"text/xml,application/json", map[string]int{"a": 1}}, {"application/json, application/xml", math.NaN()},
-				{"foo/bar, application/json, text/plain", make(chan int)}, {"application/json;q=0.9, application/xml", math.Inf(1)}} {
+				{"foo/bar, application/json, text/plain", make(chan int)}, {"application/json;q=0.9, application/xml", math.Inf(1)},
+				// ... and when the answering type is text/plain (listed, or the fallback for an absent / unsupported Accept)
+				{"text/plain", make(chan int)}, {"", map[string]any{"f": func() {}}}, {"foo/bar", math.NaN()}, {"text/plain, application/json", struct{ C chan int }{}}} {
 				st.Evals++
 				st.Nontrivial++
 				w := httptest.NewRecorder()
 				req := httptest.NewRequest("GET", "/x", nil)
-				req.Header.Set("Accept", tc.accept)
+				if tc.accept != "" {
+					req.Header.Set("Accept", tc.accept)
+				}
 				var err error
 				if pv := try(func() { err = render.Auto(w, req, tc.val) }); pv != nil {
 					add("negotiate:panic", fmt.Sprintf("render.Auto(%T) with Accept %q panicked: %v", tc.val, tc.accept, pv))
@@ -709,7 +722,7 @@ func c19Run(c c19Case, st *fw.Stats) []fw.Viol {
 var c19Spec = fw.Spec[c19Case]{
 	ID:    "C19",
 	Level: "model_checking",
-	Rule: "complete product: every helper on the context of a handler used directly as http.Handler; every helper alone on a fresh router after every ordered pair of 13 helper calls built one earlier response (differential against the pristine process); 11 context helpers x 8 status codes x value alphabets (7 strings with HTML / unicode / control characters; maps, structs, pointers, byte and int slices, scalars; unencodable chan / func / NaN / Inf / cyclic values / invalid json.RawMessage; json.RawMessage values incl. nil; two helper failures in one request with the same or with uncomparable error values; for Stream also 5 reader shapes and 5 sized readers that were partly read before - the rest is streamed and an announced Content-Length equals it) x preset Content-Type absent / present (HTTPError answers text/plain whatever was set before) x another status already selected by an earlier handler / an error already recorded by an earlier middleware (no OnError hook) / the request dispatched by HandleContext on a caller-owned context; 11 pkg/render functions x 3 preset Content-Types; render.Auto x ALL Accept lists of <=3 (thorough 4) entries over 10 entries (the five supported MIME strings, foo/bar, */*, q-parameters, empty) and 5 lists whose first supported type cannot encode the value (the failure is returned); " +
+	Rule: "complete product: every helper on the context of a handler used directly as http.Handler; every helper alone on a fresh router after every ordered pair of 13 helper calls built one earlier response (differential against the pristine process); 11 context helpers x 8 status codes x value alphabets (7 strings with HTML / unicode / control characters; maps, structs, pointers, byte and int slices, scalars; unencodable chan / func / NaN / Inf / cyclic values / invalid json.RawMessage; json.RawMessage values incl. nil; two helper failures in one request with the same or with uncomparable error values; for Stream also 5 reader shapes and 5 sized readers that were partly read before - the rest is streamed and an announced Content-Length equals it) x preset Content-Type absent / present (HTTPError answers text/plain whatever was set before) x another status already selected by an earlier handler / an error already recorded by an earlier middleware (no OnError hook) / the request dispatched by HandleContext on a caller-owned context; 11 pkg/render functions x 3 preset Content-Types; render.Auto x ALL Accept lists of <=3 (thorough 4) entries over 10 entries (the five supported MIME strings, foo/bar, */*, q-parameters, empty) and 9 lists whose answering type (the first supported one listed, or the text/plain fallback) cannot encode the value (the failure is returned); " +
 		"oracle: recorded status, documented Content-Type (preset preserved by every pkg/render renderer), body decodes back (JSONP unwrapped), first supported entry wins, encoding failures land in Context.Errors / the returned error; every evaluation is non-trivial except single-entry Accept lists",
 	Assume: []string{"text/html negotiation is the code's documented no-op and is modelled as such", "XML round trips use one struct type; encoding/xml has no cycle detection so cyclic values are not offered to it"},
 	Bounds: func(tier string) map[string]any {
